@@ -20,10 +20,13 @@ import (
 	"context"
 	"fmt"
 	"math/rand"
+	"runtime"
 	"sort"
 	"strings"
 	"time"
 
+	badger "github.com/dgraph-io/badger/v4"
+	"github.com/dgraph-io/badger/v4/options"
 	"github.com/dgraph-io/badger/v4/y"
 )
 
@@ -524,3 +527,1219 @@ func parseU(s string) (v uint64, err error) {
 	}()
 	return atou(s), nil
 }
+
+// =====================================================================================
+// goroutine settling: all blocking calls issued by the harness are either back or parked
+// =====================================================================================
+
+// countParked counts goroutines whose stack contains `marker` and that are parked in the
+// select of WaterMark.WaitForMark.
+func countParked(marker string) int {
+	buf := make([]byte, 1<<20)
+	for {
+		n := runtime.Stack(buf, true)
+		if n < len(buf) {
+			buf = buf[:n]
+			break
+		}
+		buf = make([]byte, 2*len(buf))
+	}
+	cnt := 0
+	for _, blk := range strings.Split(string(buf), "\n\n") {
+		if !strings.Contains(blk, marker) || !strings.Contains(blk, ".WaitForMark") {
+			continue
+		}
+		nl := strings.IndexByte(blk, '\n')
+		if nl < 0 {
+			continue
+		}
+		hdr := blk[:nl]
+		lb := strings.IndexByte(hdr, '[')
+		if lb < 0 {
+			continue
+		}
+		st := hdr[lb+1:]
+		if strings.HasPrefix(st, "select") || strings.HasPrefix(st, "chan receive") {
+			cnt++
+		}
+	}
+	return cnt
+}
+
+// settle waits until the `outstanding()` blocking calls still not returned are all parked in
+// WaitForMark (after `barrier` made the watermark goroutines quiescent). It returns false when
+// that does not happen within strandedTimeout (some goroutine is neither back nor parked).
+func settle(marker string, barrier func(), outstanding func() int) bool {
+	deadline := time.Now().Add(strandedTimeout)
+	for spin := 0; ; spin++ {
+		barrier()
+		n := outstanding()
+		if n == 0 {
+			return true
+		}
+		if countParked(marker) >= n {
+			// parked goroutines have sent their waiter mark; make sure it has been handled,
+			// then look once more: a released one is not parked any more.
+			barrier()
+			n2 := outstanding()
+			if n2 == 0 || countParked(marker) >= n2 {
+				return true
+			}
+		}
+		if time.Now().After(deadline) {
+			return false
+		}
+		if spin < 50 {
+			runtime.Gosched()
+		} else {
+			time.Sleep(200 * time.Microsecond)
+		}
+	}
+}
+
+// =====================================================================================
+// specification of the oracle (naive: the full history is kept for ever)
+// =====================================================================================
+
+const (
+	rtBlocked = iota // inside NewTransaction/readTs
+	rtActive
+	rtClosing // Commit returned ErrConflict, Discard not yet run (call level only)
+	rtClosed
+)
+
+type refTxn struct {
+	readTs   uint64
+	update   bool
+	reads    []uint64
+	writes   map[uint64]bool
+	state    int
+	contract bool // managed mode: discardTs <= readTs held during its whole life
+}
+
+type refCommit struct {
+	ts     uint64
+	writes map[uint64]bool
+	done   bool
+}
+
+type refOracle struct {
+	managed, detect bool
+	next            uint64
+	discardTs       uint64
+	lastCleanup     uint64 // only for the assert guards (managed mode)
+	txns            []*refTxn
+	commits         []*refCommit
+}
+
+func newRefOracle(managed, detect bool, n uint64) *refOracle {
+	return &refOracle{managed: managed, detect: detect, next: n + 1}
+}
+
+// applied: every allocated commit timestamp <= r has been reported done.
+func (r *refOracle) applied(readTs uint64) bool {
+	for _, c := range r.commits {
+		if c.ts <= readTs && !c.done {
+			return false
+		}
+	}
+	return true
+}
+
+func (r *refOracle) pendingCommits() []uint64 {
+	var out []uint64
+	for _, c := range r.commits {
+		if !c.done {
+			out = append(out, c.ts)
+		}
+	}
+	return out
+}
+
+// conflictSpec is the statement of C02: some transaction that obtained a commit timestamp
+// after t's read timestamp wrote a key t read.
+func (r *refOracle) conflictSpec(t *refTxn) bool {
+	if !r.detect {
+		return false
+	}
+	for _, c := range r.commits {
+		if c.ts <= t.readTs {
+			continue
+		}
+		for _, k := range t.reads {
+			if c.writes[k] {
+				return true
+			}
+		}
+	}
+	return false
+}
+
+func copySet(m map[uint64]bool) map[uint64]bool {
+	c := map[uint64]bool{}
+	for k := range m {
+		c[k] = true
+	}
+	return c
+}
+
+// =====================================================================================
+// engine "oracle": the production oracle, call level
+// =====================================================================================
+
+func init() {
+	engines["oracle"] = &Engine{Gen: genOracle, Exec: execOracle}
+	engines["txn"] = &Engine{Gen: genTxn, Exec: execTxn}
+}
+
+func b01(b bool) int {
+	if b {
+		return 1
+	}
+	return 0
+}
+
+func genOracle(rng *rand.Rand, n int, st *Stats) []string {
+	var ops []string
+	for c := 0; c < n; c++ {
+		ops = append(ops, genOracleSession(rng, st)...)
+	}
+	return ops
+}
+
+func genOracleSession(rng *rand.Rand, st *Stats) []string {
+	managed := rng.Intn(5) == 0
+	if params["mode"] == "normal" {
+		managed = false
+	}
+	detect := rng.Intn(8) != 0
+	n0 := uint64(0)
+	switch rng.Intn(4) {
+	case 0:
+		n0 = uint64(rng.Intn(20))
+	case 1:
+		n0 = 1 << 40
+	}
+	ref := newRefOracle(managed, detect, n0)
+	ops := []string{fmt.Sprintf("reset %d %d %d", b01(managed), b01(detect), n0)}
+	st.Inc(fmt.Sprintf("orc-session:managed=%v,detect=%v", managed, detect))
+	nkeys := 2 + rng.Intn(3)
+	nops := 10 + rng.Intn(50)
+	maxTs := n0 // managed: largest timestamp used so far
+	for i := 0; i < nops; i++ {
+		var active, closing, withWrites []int
+		open := 0
+		for tid, t := range ref.txns {
+			switch t.state {
+			case rtActive:
+				active = append(active, tid)
+				if t.update && len(t.writes) > 0 {
+					withWrites = append(withWrites, tid)
+				}
+				open++
+			case rtClosing:
+				closing = append(closing, tid)
+				open++
+			case rtBlocked:
+				open++
+			}
+		}
+		r := rng.Intn(100)
+		switch {
+		case r < 14 && open < 6: // new transaction
+			tid := len(ref.txns)
+			upd := rng.Intn(5) != 0
+			if managed {
+				rts := maxTs
+				switch rng.Intn(4) {
+				case 0:
+					if rts > 0 {
+						rts -= uint64(rng.Intn(int(min64(rts, 3)) + 1))
+					}
+				case 1:
+					rts += uint64(rng.Intn(3))
+				}
+				if rts < ref.discardTs && rng.Intn(4) != 0 {
+					rts = ref.discardTs // mostly respect the API contract
+				}
+				ops = append(ops, fmt.Sprintf("beginat %d %d %d", tid, rts, b01(upd)))
+				ref.txns = append(ref.txns, &refTxn{readTs: rts, update: upd, writes: map[uint64]bool{}, state: rtActive})
+				if rts > maxTs {
+					maxTs = rts
+				}
+			} else {
+				ops = append(ops, fmt.Sprintf("readts %d %d", tid, b01(upd)))
+				t := &refTxn{readTs: ref.next - 1, update: upd, writes: map[uint64]bool{}, state: rtBlocked}
+				if ref.applied(t.readTs) {
+					t.state = rtActive
+				}
+				ref.txns = append(ref.txns, t)
+			}
+		case r < 34 && len(active) > 0: // read
+			tid := active[rng.Intn(len(active))]
+			k := uint64(1 + rng.Intn(nkeys))
+			ops = append(ops, fmt.Sprintf("read %d %d", tid, k))
+			if ref.txns[tid].update {
+				ref.txns[tid].reads = append(ref.txns[tid].reads, k)
+			}
+		case r < 52 && len(active) > 0: // write
+			tid := active[rng.Intn(len(active))]
+			k := uint64(1 + rng.Intn(nkeys))
+			ops = append(ops, fmt.Sprintf("write %d %d", tid, k))
+			if ref.txns[tid].update {
+				ref.txns[tid].writes[k] = true
+			}
+		case r < 68 && len(withWrites) > 0: // commit
+			tid := withWrites[rng.Intn(len(withWrites))]
+			t := ref.txns[tid]
+			if managed {
+				ts := maxTs + uint64(rng.Intn(3))
+				if rng.Intn(6) == 0 && ts > 0 {
+					ts -= uint64(rng.Intn(int(min64(ts, 3)) + 1))
+				}
+				if ts == 0 {
+					ts = 1
+				}
+				ops = append(ops, fmt.Sprintf("commitat %d %d", tid, ts))
+				if ref.conflictSpec(t) {
+					t.state = rtClosing
+				} else if !(detect && ts < ref.lastCleanup) || !detect {
+					if ts >= ref.lastCleanup {
+						ref.commits = append(ref.commits, &refCommit{ts: ts, writes: copySet(t.writes), done: true})
+						t.state = rtClosed
+						if ts > maxTs {
+							maxTs = ts
+						}
+					}
+				}
+			} else {
+				ops = append(ops, fmt.Sprintf("commit %d", tid))
+				if ref.conflictSpec(t) {
+					t.state = rtClosing
+				} else {
+					ref.commits = append(ref.commits, &refCommit{ts: ref.next, writes: copySet(t.writes)})
+					ref.next++
+					t.state = rtClosed
+				}
+			}
+		case r < 78 && len(active)+len(closing) > 0: // discard
+			all := append(append([]int{}, active...), closing...)
+			tid := all[rng.Intn(len(all))]
+			if len(closing) > 0 && rng.Intn(2) == 0 {
+				tid = closing[rng.Intn(len(closing))]
+			}
+			ops = append(ops, fmt.Sprintf("discard %d", tid))
+			ref.txns[tid].state = rtClosed
+		case r < 94 && !managed: // the pipeline finishes a commit
+			pc := ref.pendingCommits()
+			if len(pc) == 0 {
+				continue
+			}
+			ts := pc[rng.Intn(len(pc))]
+			if rng.Intn(2) == 0 {
+				ts = pc[0]
+			}
+			ops = append(ops, fmt.Sprintf("donecommit %d", ts))
+			for _, c := range ref.commits {
+				if c.ts == ts {
+					c.done = true
+				}
+			}
+			for _, t := range ref.txns {
+				if t.state == rtBlocked && ref.applied(t.readTs) {
+					t.state = rtActive
+				}
+			}
+		case r < 94 && managed: // SetDiscardTs
+			ts := ref.discardTs + uint64(rng.Intn(3))
+			if rng.Intn(10) == 0 && ts > 0 {
+				ts--
+			}
+			if rng.Intn(3) != 0 {
+				// respect the contract: not above the read timestamp of an open update txn
+				for _, t := range ref.txns {
+					if t.state == rtActive && t.update && t.readTs < ts {
+						ts = t.readTs
+					}
+				}
+			}
+			ops = append(ops, fmt.Sprintf("setdiscard %d", ts))
+			if !detect || ts >= ref.lastCleanup {
+				ref.discardTs = ts
+				if detect {
+					ref.lastCleanup = ts
+				}
+			}
+		case r < 97:
+			ops = append(ops, "cleanup")
+		default:
+			// an op on a transaction in the wrong state (both sides must answer skip)
+			if len(ref.txns) > 0 {
+				tid := rng.Intn(len(ref.txns))
+				ops = append(ops, []string{fmt.Sprintf("commit %d", tid), fmt.Sprintf("discard %d", tid), fmt.Sprintf("read %d 1", tid)}[rng.Intn(3)])
+				// keep ref in step for the cases that are actually enabled
+				t := ref.txns[tid]
+				last := ops[len(ops)-1]
+				switch {
+				case strings.HasPrefix(last, "discard") && (t.state == rtActive || t.state == rtClosing):
+					t.state = rtClosed
+				case strings.HasPrefix(last, "read") && t.state == rtActive && t.update:
+					t.reads = append(t.reads, 1)
+				case strings.HasPrefix(last, "commit") && !managed && t.state == rtActive && t.update && len(t.writes) > 0:
+					if ref.conflictSpec(t) {
+						t.state = rtClosing
+					} else {
+						ref.commits = append(ref.commits, &refCommit{ts: ref.next, writes: copySet(t.writes)})
+						ref.next++
+						t.state = rtClosed
+					}
+				}
+			}
+		}
+	}
+	// most sessions end by finishing all commits so that every reader must be released
+	if !managed && rng.Intn(4) != 0 {
+		for _, ts := range ref.pendingCommits() {
+			ops = append(ops, fmt.Sprintf("donecommit %d", ts))
+		}
+	}
+	st.Inc("orc-session-len:" + sizeBucket(len(ops)))
+	return ops
+}
+
+func min64(a, b uint64) uint64 {
+	if a < b {
+		return a
+	}
+	return b
+}
+
+type orcTxn struct {
+	x        *badger.VerifOrcTxn
+	update   bool
+	state    int
+	ch       chan uint64 // readTs result
+	expectR  uint64
+	readTs   uint64
+	hasWrite bool
+	ref      *refTxn
+}
+
+type orcSession struct {
+	v       *badger.VerifOracle
+	managed bool
+	detect  bool
+	txns    []*orcTxn
+	ref     *refOracle
+	lastTs  uint64
+	acked   uint64 // largest commit ts reported done
+}
+
+// orcReaderBody is the goroutine of a transaction start (its name is looked for in stacks).
+func orcReaderBody(v *badger.VerifOracle, ch chan uint64) {
+	ch <- v.ReadTs()
+}
+
+func (s *orcSession) outstanding() int {
+	n := 0
+	for _, t := range s.txns {
+		if t.state == rtBlocked {
+			select {
+			case r := <-t.ch:
+				t.readTs = r
+				t.state = rtActive
+				t.x = s.v.NewTxn(r, t.update)
+				t.ch = nil
+				t.state = -1 // returned, not yet reported
+			default:
+				n++
+			}
+		}
+	}
+	return n
+}
+
+func dumpOracle(st badger.VerifOracleState, keyName func(uint64) string) string {
+	var b strings.Builder
+	fmt.Fprintf(&b, "next=%d lc=%d dt=%d rd=%d td=%d ct=", st.NextTxnTs, st.LastCleanupTs, st.DiscardTs, st.ReadDoneUntil, st.TxnDoneUntil)
+	if len(st.Committed) == 0 {
+		b.WriteString("-")
+	}
+	for i, c := range st.Committed {
+		if i > 0 {
+			b.WriteString(";")
+		}
+		fmt.Fprintf(&b, "%d:", c.Ts)
+		var ks []string
+		for _, k := range c.Keys {
+			ks = append(ks, keyName(k))
+		}
+		sort.Strings(ks)
+		b.WriteString(strings.Join(ks, ","))
+	}
+	return b.String()
+}
+
+func sameCommitted(a, b badger.VerifOracleState) bool {
+	if a.NextTxnTs != b.NextTxnTs || len(a.Committed) != len(b.Committed) {
+		return false
+	}
+	for i := range a.Committed {
+		if a.Committed[i].Ts != b.Committed[i].Ts || len(a.Committed[i].Keys) != len(b.Committed[i].Keys) {
+			return false
+		}
+	}
+	return true
+}
+
+func execOracle(ops []string, st *Stats) ([]string, []string) {
+	outs := make([]string, len(ops))
+	var oracle []string
+	var s *orcSession
+	fail := func(i int, msg string) {
+		oracle = append(oracle, fmt.Sprintf("line %d: %s :: %s", i+1, ops[i], msg))
+	}
+	numName := func(k uint64) string { return utoa(k) }
+	closeSession := func(i int) {
+		if s == nil {
+			return
+		}
+		// readers still blocked at the end of a session are released by finishing all commits
+		if !s.managed {
+			for _, c := range s.ref.commits {
+				if !c.done {
+					s.v.DoneCommit(c.ts)
+					c.done = true
+				}
+			}
+			if !settle("orcReaderBody", s.v.Barrier, s.outstanding) || s.outstanding() != 0 {
+				fail(i, "[reader-stranded] a transaction start is still blocked although every commit is done")
+			}
+		}
+		s.v.Stop()
+		s = nil
+	}
+	for i, l := range ops {
+		w := strings.Fields(l)
+		if len(w) == 0 {
+			outs[i] = "bad-op"
+			continue
+		}
+		if w[0] == "reset" {
+			if len(w) != 4 {
+				outs[i] = "bad-op"
+				continue
+			}
+			closeSession(i - 1)
+			n0, err := parseU(w[3])
+			if err != nil || (w[1] != "0" && w[1] != "1") || (w[2] != "0" && w[2] != "1") {
+				outs[i] = "bad-op"
+				continue
+			}
+			s = &orcSession{managed: w[1] == "1", detect: w[2] == "1"}
+			s.v = badger.VerifNewOracle(s.managed, s.detect, n0)
+			s.ref = newRefOracle(s.managed, s.detect, n0)
+			s.v.Barrier()
+			outs[i] = "ok woke=- " + dumpOracle(s.v.State(), numName)
+			st.Inc("op:reset")
+			continue
+		}
+		if s == nil {
+			outs[i] = "bad-op"
+			continue
+		}
+		var a []uint64
+		bad := false
+		for _, x := range w[1:] {
+			v, err := parseU(x)
+			if err != nil {
+				bad = true
+			}
+			a = append(a, v)
+		}
+		if bad {
+			outs[i] = "bad-op"
+			continue
+		}
+		st.Inc("op:" + w[0])
+		res := "skip"
+		own := -1 // tid started by this op
+		getTxn := func(k int) *orcTxn {
+			if len(a) <= k || a[k] >= uint64(len(s.txns)) {
+				return nil
+			}
+			return s.txns[a[k]]
+		}
+		before := s.v.State()
+		switch {
+		case w[0] == "readts" && len(a) == 2 && a[1] <= 1:
+			if s.managed || a[0] != uint64(len(s.txns)) {
+				break
+			}
+			t := &orcTxn{update: a[1] == 1, state: rtBlocked, ch: make(chan uint64, 1), expectR: before.NextTxnTs - 1}
+			t.ref = &refTxn{readTs: s.ref.next - 1, update: t.update, writes: map[uint64]bool{}, state: rtBlocked}
+			s.ref.txns = append(s.ref.txns, t.ref)
+			s.txns = append(s.txns, t)
+			own = len(s.txns) - 1
+			go orcReaderBody(s.v, t.ch)
+		case w[0] == "beginat" && len(a) == 3 && a[2] <= 1:
+			if !s.managed || a[0] != uint64(len(s.txns)) {
+				break
+			}
+			t := &orcTxn{update: a[2] == 1, state: rtActive, readTs: a[1]}
+			t.x = s.v.NewTxn(a[1], t.update)
+			t.ref = &refTxn{readTs: a[1], update: t.update, writes: map[uint64]bool{}, state: rtActive, contract: s.ref.discardTs <= a[1]}
+			s.ref.txns = append(s.ref.txns, t.ref)
+			s.txns = append(s.txns, t)
+			res = "ok"
+		case w[0] == "read" && len(a) == 2:
+			if t := getTxn(0); t != nil && t.state == rtActive {
+				t.x.AddRead(a[1])
+				if t.update {
+					t.ref.reads = append(t.ref.reads, a[1])
+				}
+				res = "ok"
+			}
+		case w[0] == "write" && len(a) == 2:
+			if t := getTxn(0); t != nil && t.state == rtActive && t.update {
+				t.x.AddWrite(a[1])
+				t.hasWrite = true
+				t.ref.writes[a[1]] = true
+				res = "ok"
+			}
+		case (w[0] == "commit" && len(a) == 1) || (w[0] == "commitat" && len(a) == 2):
+			t := getTxn(0)
+			if t == nil || t.state != rtActive || !t.update || !t.hasWrite || s.managed != (w[0] == "commitat") {
+				break
+			}
+			wantConflict := s.ref.conflictSpec(t.ref)
+			if s.managed {
+				if !wantConflict && a[1] < before.LastCleanupTs {
+					res = "assert" // AssertTrue(ts >= lastCleanupTs) would kill the process
+					break
+				}
+				t.x.SetCommitTs(a[1])
+			}
+			ts, conflict := s.v.NewCommitTs(t.x)
+			after := s.v.State()
+			switch {
+			case conflict:
+				res = "conflict"
+				t.state = rtClosing
+				t.ref.state = rtClosing
+				if !sameCommitted(before, after) || before.LastCleanupTs != after.LastCleanupTs {
+					fail(i, "[conflict-trace] a rejected commit changed nextTxnTs/committedTxns")
+				}
+				if !wantConflict && (!s.managed || t.ref.contract) {
+					fail(i, fmt.Sprintf("[false-conflict] ErrConflict although no transaction with a commit timestamp > %d wrote a key it read", t.ref.readTs))
+				}
+			default:
+				res = fmt.Sprintf("ok ts=%d", ts)
+				t.state = rtClosed
+				t.ref.state = rtClosed
+				if wantConflict && (!s.managed || t.ref.contract) {
+					fail(i, fmt.Sprintf("[conflict-missed] commit accepted at %d although a transaction committed after its read timestamp %d wrote a key it read", ts, t.ref.readTs))
+				}
+				if !s.managed {
+					if ts != before.NextTxnTs || ts <= s.lastTs {
+						fail(i, fmt.Sprintf("[commit-ts] commit timestamp %d, previous %d, nextTxnTs was %d", ts, s.lastTs, before.NextTxnTs))
+					}
+					s.lastTs = ts
+					s.ref.next = ts + 1
+				}
+				s.ref.commits = append(s.ref.commits, &refCommit{ts: ts, writes: copySet(t.ref.writes), done: s.managed})
+			}
+			if !s.managed {
+				// determinise the racy cleanup inside newCommitTs (see DESIGN/props notes)
+				s.v.Barrier()
+				s.v.Cleanup()
+			}
+		case w[0] == "discard" && len(a) == 1:
+			if t := getTxn(0); t != nil && (t.state == rtActive || t.state == rtClosing) {
+				if !s.managed {
+					s.v.DoneRead(t.x)
+				}
+				t.state = rtClosed
+				t.ref.state = rtClosed
+				res = "ok"
+			}
+		case w[0] == "donecommit" && len(a) == 1:
+			for _, c := range s.ref.commits {
+				if c.ts == a[0] && !c.done {
+					s.v.DoneCommit(a[0])
+					c.done = true
+					if a[0] > s.acked {
+						s.acked = a[0]
+					}
+					res = "ok"
+				}
+			}
+		case w[0] == "setdiscard" && len(a) == 1:
+			if !s.managed {
+				break
+			}
+			if s.detect && a[0] < before.LastCleanupTs {
+				res = "assert"
+				break
+			}
+			s.v.SetDiscardTs(a[0])
+			s.ref.discardTs = a[0]
+			for _, t := range s.ref.txns {
+				if t.state == rtActive && t.update && a[0] > t.readTs {
+					t.contract = false
+				}
+			}
+			res = "ok"
+		case w[0] == "cleanup" && len(a) == 0:
+			mx := before.ReadDoneUntil
+			if s.managed {
+				mx = before.DiscardTs
+			}
+			if s.detect && mx < before.LastCleanupTs {
+				res = "assert"
+				break
+			}
+			s.v.Cleanup()
+			res = "ok"
+		default:
+			outs[i] = "bad-op"
+			continue
+		}
+		// ---- quiescence, then collect the transaction starts that returned
+		settled := settle("orcReaderBody", s.v.Barrier, s.outstanding)
+		var woke []string
+		for tid, t := range s.txns {
+			if t.state == -1 {
+				t.state = rtActive
+				t.ref.state = rtActive
+				// C34: never expose an unfinished commit
+				if !s.ref.applied(t.readTs) {
+					fail(i, fmt.Sprintf("[reader-early] readTs returned %d while a commit at or below it is still being applied (pending %v)", t.readTs, s.ref.pendingCommits()))
+				}
+				if t.readTs != t.expectR {
+					fail(i, fmt.Sprintf("[readts-value] readTs returned %d, nextTxnTs-1 was %d", t.readTs, t.expectR))
+				}
+				// C03: a transaction started after doneCommit(ts) returned reads at >= ts.
+				// (only meaningful for the transaction started by this very op)
+				if tid == own && t.readTs < s.acked {
+					fail(i, fmt.Sprintf("[visible-after-ack] readTs %d < acknowledged commit %d", t.readTs, s.acked))
+				}
+				if tid == own {
+					res = fmt.Sprintf("r=%d", t.readTs)
+				} else {
+					woke = append(woke, fmt.Sprintf("%d:%d", tid, t.readTs))
+				}
+			} else if t.state == rtBlocked {
+				if tid == own {
+					res = "blocked"
+				}
+				// C34: never strand a reader
+				if s.ref.applied(t.expectR) {
+					if !settled {
+						fail(i, fmt.Sprintf("[reader-stranded] transaction %d (readTs %d) still blocked although every commit at or below it is done", tid, t.expectR))
+						t.state = rtClosed // report once
+					} else {
+						// parked although it should run: give it the full timeout
+						select {
+						case r := <-t.ch:
+							t.readTs, t.state, t.x = r, rtActive, s.v.NewTxn(r, t.update)
+							t.ref.state = rtActive
+							if tid == own {
+								res = fmt.Sprintf("r=%d", r)
+							} else {
+								woke = append(woke, fmt.Sprintf("%d:%d", tid, r))
+							}
+						case <-time.After(strandedTimeout):
+							strandedTimeout = 50 * time.Millisecond
+							fail(i, fmt.Sprintf("[reader-stranded] transaction %d (readTs %d) still blocked although every commit at or below it is done", tid, t.expectR))
+							t.state = rtClosed
+						}
+					}
+				}
+			}
+		}
+		wk := "-"
+		if len(woke) > 0 {
+			wk = strings.Join(woke, ",")
+			st.Inc("orc:wakeups")
+		}
+		if res == "blocked" {
+			st.Inc("orc:blocked-start")
+		}
+		if strings.HasPrefix(res, "conflict") {
+			st.Inc("orc:conflict")
+		}
+		outs[i] = res + " woke=" + wk + " " + dumpOracle(s.v.State(), numName)
+	}
+	closeSession(len(ops) - 1)
+	return outs, oracle
+}
+
+// =====================================================================================
+// engine "txn": a real in-memory DB driven through NewTransaction/Get/Set/Delete/
+// NewIterator/Commit/Discard; 2–5 concurrent transactions on 2–4 keys, long-running readers
+// that outlive conflict-log cleanups, blind writers, read-only transactions.
+// Oracles: every Commit result equals the C02 specification (full history, never pruned);
+// every read returns the snapshot value; the committed history is serializable in commit-ts
+// order (each tracked read of a committed update transaction equals the value in the serial
+// state just before its commit timestamp).
+// =====================================================================================
+
+var txnKeys = []string{"61", "62", "63", "6162"}
+
+func genTxn(rng *rand.Rand, n int, st *Stats) []string {
+	var ops []string
+	for c := 0; c < n; c++ {
+		ops = append(ops, genTxnSession(rng, st)...)
+	}
+	return ops
+}
+
+func genTxnSession(rng *rand.Rand, st *Stats) []string {
+	detect := rng.Intn(10) != 0
+	ops := []string{fmt.Sprintf("reset %d", b01(detect))}
+	nkeys := 2 + rng.Intn(3)
+	maxOpen := 2 + rng.Intn(4)
+	type gt struct {
+		update bool
+		open   bool
+		long   bool // long-running: rarely finished
+		writes int
+	}
+	var txns []*gt
+	nops := 15 + rng.Intn(60)
+	val := 0
+	for i := 0; i < nops; i++ {
+		var open []int
+		for tid, t := range txns {
+			if t.open {
+				open = append(open, tid)
+			}
+		}
+		pick := func() int {
+			// prefer short transactions so that long ones outlive many commits
+			for tries := 0; tries < 4; tries++ {
+				tid := open[rng.Intn(len(open))]
+				if !txns[tid].long || rng.Intn(6) == 0 {
+					return tid
+				}
+			}
+			return open[rng.Intn(len(open))]
+		}
+		r := rng.Intn(100)
+		switch {
+		case (r < 15 || len(open) == 0) && len(open) < maxOpen:
+			upd := rng.Intn(5) != 0
+			txns = append(txns, &gt{update: upd, open: true, long: rng.Intn(4) == 0})
+			ops = append(ops, fmt.Sprintf("begin %d %d", len(txns)-1, b01(upd)))
+		case r < 40 && len(open) > 0:
+			tid := open[rng.Intn(len(open))]
+			ops = append(ops, fmt.Sprintf("get %d %s", tid, txnKeys[rng.Intn(nkeys)]))
+		case r < 62 && len(open) > 0:
+			tid := open[rng.Intn(len(open))]
+			val++
+			if rng.Intn(6) == 0 {
+				ops = append(ops, fmt.Sprintf("del %d %s", tid, txnKeys[rng.Intn(nkeys)]))
+			} else {
+				ops = append(ops, fmt.Sprintf("set %d %s %02x", tid, txnKeys[rng.Intn(nkeys)], val%256))
+			}
+			txns[tid].writes++
+		case r < 67 && len(open) > 0:
+			ops = append(ops, fmt.Sprintf("iter %d", open[rng.Intn(len(open))]))
+		case r < 88 && len(open) > 0:
+			tid := pick()
+			ops = append(ops, fmt.Sprintf("commit %d", tid))
+			txns[tid].open = false
+		case r < 94 && len(open) > 0:
+			tid := pick()
+			ops = append(ops, fmt.Sprintf("discard %d", tid))
+			txns[tid].open = false
+		case len(txns) > 0:
+			// an op on a finished transaction
+			tid := rng.Intn(len(txns))
+			ops = append(ops, []string{fmt.Sprintf("get %d 61", tid), fmt.Sprintf("set %d 61 ff", tid), fmt.Sprintf("commit %d", tid), fmt.Sprintf("discard %d", tid)}[rng.Intn(4)])
+			if strings.HasPrefix(ops[len(ops)-1], "commit") || strings.HasPrefix(ops[len(ops)-1], "discard") {
+				txns[tid].open = false
+			}
+		}
+	}
+	// finish: commit or discard what is still open (long readers commit last: cleanup pressure)
+	for tid, t := range txns {
+		if t.open {
+			if rng.Intn(2) == 0 {
+				ops = append(ops, fmt.Sprintf("commit %d", tid))
+			} else {
+				ops = append(ops, fmt.Sprintf("discard %d", tid))
+			}
+		}
+	}
+	st.Inc(fmt.Sprintf("txn-session:detect=%v", detect))
+	st.Inc("txn-session-len:" + sizeBucket(len(ops)))
+	return ops
+}
+
+type dbTxn struct {
+	txn     *badger.Txn
+	update  bool
+	closed  bool
+	readTs  uint64
+	pend    map[string]*string // own writes (nil = delete)
+	readLog map[string]string  // tracked reads: key -> observed ("" = not found, else "v"+hex)
+	ref     *refTxn
+}
+
+type dbVersion struct {
+	ts  uint64
+	val *string
+}
+
+type dbSession struct {
+	db      *badger.DB
+	v       *badger.VerifOracle
+	detect  bool
+	txns    []*dbTxn
+	ref     *refOracle
+	history map[string][]dbVersion // committed versions per key, ascending ts
+	fp      map[uint64]string
+	lastTs  uint64
+}
+
+func (s *dbSession) snapshot(key string, ts uint64) *string {
+	var out *string
+	for _, v := range s.history[key] {
+		if v.ts <= ts {
+			out = v.val
+		}
+	}
+	return out
+}
+
+func obs(v *string) string {
+	if v == nil {
+		return "nf"
+	}
+	return "v=" + *v
+}
+
+func openTxnDB(detect bool) (*badger.DB, error) {
+	opt := badger.DefaultOptions("").WithInMemory(true).WithDetectConflicts(detect).
+		WithLoggingLevel(badger.ERROR).WithMemTableSize(1 << 20).WithValueThreshold(1 << 10).
+		WithNumCompactors(2).WithNumMemtables(2).WithCompression(options.None).WithBlockCacheSize(0).WithIndexCacheSize(0).
+		WithMetricsEnabled(false)
+	return badger.Open(opt)
+}
+
+// withTimeout runs f in a goroutine and reports whether it finished within strandedTimeout.
+func withTimeout(f func()) bool {
+	done := make(chan struct{})
+	go func() { f(); close(done) }()
+	return awaitClosed(done)
+}
+
+func execTxn(ops []string, st *Stats) ([]string, []string) {
+	outs := make([]string, len(ops))
+	var oracle []string
+	var s *dbSession
+	fail := func(i int, msg string) {
+		oracle = append(oracle, fmt.Sprintf("line %d: %s :: %s", i+1, ops[i], msg))
+	}
+	closeSession := func() {
+		if s == nil {
+			return
+		}
+		for _, t := range s.txns {
+			if !t.closed {
+				t.txn.Discard()
+			}
+		}
+		_ = s.db.Close()
+		s = nil
+	}
+	keyName := func(k uint64) string {
+		if n, ok := s.fp[k]; ok {
+			return n
+		}
+		return "?"
+	}
+	for i, l := range ops {
+		w := strings.Fields(l)
+		if len(w) == 0 {
+			outs[i] = "bad-op"
+			continue
+		}
+		if w[0] == "reset" {
+			if len(w) != 2 || (w[1] != "0" && w[1] != "1") {
+				outs[i] = "bad-op"
+				continue
+			}
+			closeSession()
+			db, err := openTxnDB(w[1] == "1")
+			if err != nil {
+				panic(err)
+			}
+			s = &dbSession{db: db, v: badger.VerifOracleOf(db), detect: w[1] == "1",
+				history: map[string][]dbVersion{}, fp: map[uint64]string{}}
+			s.ref = newRefOracle(false, s.detect, 0)
+			s.v.Barrier()
+			outs[i] = "ok " + dumpOracle(s.v.State(), keyName)
+			st.Inc("op:reset")
+			continue
+		}
+		if s == nil || len(w) < 2 {
+			outs[i] = "bad-op"
+			continue
+		}
+		tid64, err := parseU(w[1])
+		if err != nil {
+			outs[i] = "bad-op"
+			continue
+		}
+		tid := int(tid64)
+		st.Inc("op:" + w[0])
+		res := "skip"
+		var t *dbTxn
+		if tid < len(s.txns) {
+			t = s.txns[tid]
+		}
+		note := func(k string) []byte {
+			kb := unhx(k)
+			s.fp[badger.VerifFingerprint(kb)] = k
+			return kb
+		}
+		switch {
+		case w[0] == "begin" && len(w) == 3 && (w[2] == "0" || w[2] == "1"):
+			if tid != len(s.txns) {
+				break
+			}
+			nt := &dbTxn{update: w[2] == "1", pend: map[string]*string{}, readLog: map[string]string{}}
+			want := s.v.State().NextTxnTs - 1
+			if !withTimeout(func() { nt.txn = s.db.NewTransaction(nt.update) }) {
+				fail(i, "[reader-stranded] NewTransaction blocked although no commit is pending")
+				panic("NewTransaction stuck; cannot continue the session")
+			}
+			nt.readTs = nt.txn.ReadTs()
+			if nt.readTs != want {
+				fail(i, fmt.Sprintf("[readts-value] readTs %d, nextTxnTs-1 was %d", nt.readTs, want))
+			}
+			if nt.readTs < s.lastTs {
+				fail(i, fmt.Sprintf("[visible-after-ack] readTs %d < acknowledged commit %d", nt.readTs, s.lastTs))
+			}
+			nt.ref = &refTxn{readTs: nt.readTs, update: nt.update, writes: map[uint64]bool{}, state: rtActive}
+			s.ref.txns = append(s.ref.txns, nt.ref)
+			s.txns = append(s.txns, nt)
+			res = fmt.Sprintf("r=%d", nt.readTs)
+		case w[0] == "get" && len(w) == 3:
+			if t == nil {
+				break
+			}
+			if t.closed {
+				res = "err=discarded"
+				break
+			}
+			kb := note(w[2])
+			item, err := t.txn.Get(kb)
+			var got *string
+			switch {
+			case err == badger.ErrKeyNotFound:
+			case err != nil:
+				res = "err=" + err.Error()
+			default:
+				vb, _ := item.ValueCopy(nil)
+				h := hx(vb)
+				got = &h
+			}
+			if err == nil || err == badger.ErrKeyNotFound {
+				res = obs(got)
+				var want *string
+				own, isOwn := t.pend[w[2]]
+				if t.update && isOwn {
+					want = own
+				} else {
+					want = s.snapshot(w[2], t.readTs)
+					if t.update {
+						t.ref.reads = append(t.ref.reads, badger.VerifFingerprint(kb))
+						t.readLog[w[2]] = obs(got)
+					}
+				}
+				if obs(want) != obs(got) {
+					fail(i, fmt.Sprintf("[snapshot-read] Get returned %s, snapshot at %d (own writes first) has %s", obs(got), t.readTs, obs(want)))
+				}
+			}
+		case (w[0] == "set" && len(w) == 4) || (w[0] == "del" && len(w) == 3):
+			if t == nil {
+				break
+			}
+			if !t.update {
+				res = "err=readonly"
+				break
+			}
+			if t.closed {
+				res = "err=discarded"
+				break
+			}
+			kb := note(w[2])
+			var err error
+			if w[0] == "set" {
+				err = t.txn.Set(kb, unhx(w[3]))
+			} else {
+				err = t.txn.Delete(kb)
+			}
+			if err != nil {
+				res = "err=" + err.Error()
+				break
+			}
+			if w[0] == "set" {
+				v := w[3]
+				t.pend[w[2]] = &v
+			} else {
+				t.pend[w[2]] = nil
+			}
+			t.ref.writes[badger.VerifFingerprint(kb)] = true
+			res = "ok"
+		case w[0] == "iter" && len(w) == 2:
+			if t == nil {
+				break
+			}
+			if t.closed {
+				res = "err=discarded"
+				break
+			}
+			var items []string
+			it := t.txn.NewIterator(badger.DefaultIteratorOptions)
+			for it.Rewind(); it.Valid(); it.Next() {
+				item := it.Item()
+				k := hx(item.KeyCopy(nil))
+				vb, _ := item.ValueCopy(nil)
+				items = append(items, k+":"+hx(vb))
+				s.fp[badger.VerifFingerprint(unhx(k))] = k
+				if t.update {
+					t.ref.reads = append(t.ref.reads, badger.VerifFingerprint(unhx(k)))
+					if _, own := t.pend[k]; !own {
+						t.readLog[k] = "v=" + hx(vb)
+					}
+				}
+			}
+			it.Close()
+			// specification of the iteration: own writes over the snapshot, live keys only
+			var want []string
+			seen := map[string]bool{}
+			var cand []string
+			for k := range s.history {
+				cand = append(cand, k)
+				seen[k] = true
+			}
+			if t.update {
+				for k := range t.pend {
+					if !seen[k] {
+						cand = append(cand, k)
+					}
+				}
+			}
+			sort.Slice(cand, func(a, b int) bool { return string(unhx(cand[a])) < string(unhx(cand[b])) })
+			for _, k := range cand {
+				v := s.snapshot(k, t.readTs)
+				if own, isOwn := t.pend[k]; t.update && isOwn {
+					v = own
+				}
+				if v != nil {
+					want = append(want, k+":"+*v)
+				}
+			}
+			res = "items=-"
+			if len(items) > 0 {
+				res = "items=" + strings.Join(items, ",")
+			}
+			if strings.Join(items, ",") != strings.Join(want, ",") {
+				fail(i, fmt.Sprintf("[snapshot-iter] iterator yielded %v, snapshot at %d has %v", items, t.readTs, want))
+			}
+		case w[0] == "commit" && len(w) == 2:
+			if t == nil {
+				break
+			}
+			if t.closed {
+				res = "err=discarded"
+				break
+			}
+			before := s.v.State()
+			wantConflict := t.update && len(t.pend) > 0 && s.ref.conflictSpec(t.ref)
+			var err error
+			if !withTimeout(func() { err = t.txn.Commit() }) {
+				fail(i, "[commit-stuck] Commit did not return")
+				panic("Commit stuck; cannot continue the session")
+			}
+			t.closed = true
+			t.ref.state = rtClosed
+			after := s.v.State()
+			switch {
+			case err == badger.ErrConflict:
+				res = "conflict"
+				st.Inc("txn:conflict")
+				if !sameCommitted(before, after) {
+					fail(i, "[conflict-trace] a rejected commit changed nextTxnTs/committedTxns")
+				}
+				if !wantConflict {
+					fail(i, fmt.Sprintf("[false-conflict] ErrConflict although no transaction committed after read timestamp %d wrote a key it read", t.readTs))
+				}
+			case err != nil:
+				res = "err=" + err.Error()
+			case !t.update || len(t.pend) == 0:
+				res = "ok-empty"
+			default:
+				ts := after.NextTxnTs - 1
+				res = fmt.Sprintf("ok ts=%d", ts)
+				st.Inc("txn:commit-ok")
+				if wantConflict {
+					fail(i, fmt.Sprintf("[conflict-missed] commit accepted at %d although a transaction committed after its read timestamp %d wrote a key it read", ts, t.readTs))
+				}
+				if after.NextTxnTs != before.NextTxnTs+1 || ts <= s.lastTs {
+					fail(i, fmt.Sprintf("[commit-ts] nextTxnTs %d -> %d, previous commit %d", before.NextTxnTs, after.NextTxnTs, s.lastTs))
+				}
+				// serializability in commit-ts order: what it read is what the serial
+				// execution (all commits with a smaller timestamp applied) would have read
+				for k, seenV := range t.readLog {
+					if !s.detect {
+						break // DetectConflicts=false promises nothing
+					}
+					if cur := obs(s.snapshot(k, ts)); cur != seenV {
+						fail(i, fmt.Sprintf("[not-serializable] committed at %d having read %s=%s at %d, but the serial state before %d has %s", ts, k, seenV, t.readTs, ts, cur))
+					}
+				}
+				s.lastTs = ts
+				s.ref.next = ts + 1
+				s.ref.commits = append(s.ref.commits, &refCommit{ts: ts, writes: copySet(t.ref.writes), done: true})
+				var ks []string
+				for k := range t.pend {
+					ks = append(ks, k)
+				}
+				sort.Strings(ks)
+				for _, k := range ks {
+					s.history[k] = append(s.history[k], dbVersion{ts: ts, val: t.pend[k]})
+				}
+			}
+			if res != "conflict" && rejectedLeftTrace(s, t, err) {
+				fail(i, "[rejected-trace] a rejected commit left visible writes")
+			}
+			s.v.Barrier()
+			s.v.Cleanup()
+		case w[0] == "discard" && len(w) == 2:
+			if t == nil || t.closed {
+				break
+			}
+			t.txn.Discard()
+			t.closed = true
+			t.ref.state = rtClosed
+			res = "ok"
+		default:
+			outs[i] = "bad-op"
+			continue
+		}
+		s.v.Barrier()
+		outs[i] = res + " " + dumpOracle(s.v.State(), keyName)
+	}
+	closeSession()
+	return outs, oracle
+}
+
+// rejectedLeftTrace: placeholder for the pipeline part of C03 (rejected commits leave no trace in
+// the LSM); the oracle-level part is checked by [conflict-trace].
+func rejectedLeftTrace(s *dbSession, t *dbTxn, err error) bool { return false }
